@@ -84,7 +84,7 @@ CHECKS = {
             "DESIGN.md §4 C25"),
     "C26": ("exploration",
             "bounded-exhaustive enumeration of schemas over a name alphabet built to collide / need escaping after the generator's name mangling and over every built-in type shape; each accepted schema through the real generate_rust_stub; every stub type-checked (lib + tests) by rustc in a scratch workspace",
-            "424 (quick) / ~10k (thorough) schemas: every single position (type names, properties, edge, entrypoints, parameter) x 18 names (case variants, underscores, strict / reserved / weak keywords, `_`), pairs of positions x pairs of names, every built-in scalar incl. ID x 8 nullability / list shapes as property and as parameter type, schemas without edges / properties. A stub that is written must pass cargo check --tests against /repo/trustfall; a generator panic other than its documented refusal is a violation.",
+            "448 (quick) / ~10k (thorough) schemas: every single position (type names, properties, edge, entrypoints, parameter) x 21 names (case variants, underscores, digits before capitals, strict / reserved / weak keywords, `_`), pairs of positions x pairs of names, every built-in scalar incl. ID x 8 nullability / list shapes as property and as parameter type, schemas without edges / properties. A stub that is written must pass cargo check --tests against /repo/trustfall; a generator panic other than its documented refusal is a violation.",
             "'Compiles' is decided by type-checking (no linking) with the sandbox toolchain, edition 2021 as in the repository's own stubgen test. Three known findings (ID type, consecutive-capitals type names, entrypoints colliding after snake-casing).",
             "DESIGN.md §4 C26"),
     "C27": ("exploration",
